@@ -34,6 +34,7 @@ def dispatch (dom : String) (ops : Array String) : Array String :=
   | "context" => Context.runCase ops
   | "hist" => Hist.runCase ops
   | "legacy" => Legacy.runCase ops
+  | "legacy2" => Legacy.runCase ops
   | "nlp" => Nlp.runCase ops
   | "c03" => C03.runCase ops
   | "atomicwrite" => AtomicWrite.runCase ops
